@@ -137,17 +137,28 @@ pub fn BrotliDecompressStream<A, B, C>(
     *input_offset += c;
     s.total_in += c;
     s.total_out += d;
+    unsafe { GHOST_CONSUMED += c };
     if s.pending_out > 0 {
         // here *available_out == 0
         return BrotliResult::NeedsMoreOutput;
     }
     if s.saw_end {
+        unsafe { GHOST_SUCCESSES += 1 };
         return BrotliResult::ResultSuccess;
     }
     // a decoder that asks for more input has consumed all it was given
     assume(c == avail0);
     BrotliResult::NeedsMoreInput
 }
+
+/// ghost totals over ALL decoder states of a harness run (a reader replaces its state after the
+/// end of each stream): input bytes consumed, streams ended
+pub static mut GHOST_CONSUMED: usize = 0;
+pub static mut GHOST_SUCCESSES: usize = 0;
+
+/// ghost switch: when set the model `Decompressor` returns everything asked for (bulk skip in
+/// `seek`); otherwise any count `<=` the buffer length
+pub static mut DEC_FULL: bool = false;
 
 /// Position-only model of `brotli::Decompressor`: returns a nondeterministic count, never writes
 /// data. `reads` counts calls (ghost).
@@ -176,7 +187,7 @@ impl<R: Read> Decompressor<R> {
 impl<R: Read> Read for Decompressor<R> {
     fn read(&mut self, buf: &mut [u8]) -> io::Result<usize> {
         self.reads += 1;
-        let n = nd_usize();
+        let n = if unsafe { DEC_FULL } { buf.len() } else { nd_usize() };
         assume(n <= buf.len());
         self.produced += n as u64;
         Ok(n)
